@@ -1,6 +1,7 @@
 """Obligations about the wrapping nearest-neighbour search taken from the MIR of rtree_nn.rs
 (shared by C03.b, C06, C08.d, C17)."""
 import itertools
+import re
 import json
 from fractions import Fraction
 
@@ -99,7 +100,10 @@ def shift_closure(run, funcs, pid):
     s = rvec('qs')
     gid = z3.Int('gid')
     g = generator(rvec('gl'), gid)
-    name = engine.find_fn(funcs, r'^wrapping_nn_iter::\{closure#0\}$')
+    cands = [n for n in funcs if re.match(r'^wrapping_nn_iter::\{closure#\d+\}$', n) and len(funcs[n].params) == 2 and 'Option<' in funcs[n].ret_ty]
+    if len(cands) != 1:
+        raise Inconclusive('mapping closure of wrapping_nn_iter not identified: %r' % cands)
+    name = cands[0]
     interp = engine.new_interp(funcs)
     st = State()
     st.heap[1] = g
@@ -181,7 +185,69 @@ def image_set(run, funcs, pid, dims=FR.DIMS):
             confirm_images(run, pid, '%s image set %s' % (pid, dim), dim, bad_width)
 
 
+def nn_pipeline(run, funcs, pid):
+    """`wrapping_nn_iter` / `nn_iter` as a whole: whatever the search yields is handed to the builder - every element, in order, relabelled
+    (id, shift convention) and nothing else (no element dropped, truncated, filtered or reordered).  The search itself is a harness list of
+    three results with symbolic generators, distances (non-decreasing) and shifts."""
+    from mirsym.models import list_iter
+    from . import oracle as OR
+    gens = [generator(rvec('pg%d' % k), z3.Int('pgid%d' % k)) for k in range(3)]
+    ds = [z3.Real('pd%d' % k) for k in range(3)]
+    shs = [Agg('array', [z3.Real('ps%d_%d' % (k, c)) for c in range(3)]) for k in range(3)]
+    for fname, periodic in ((r'^wrapping_nn_iter$', True), (r'^nn_iter$', False)):
+        st = State()
+        for k in range(3):
+            st.heap[20 + k] = gens[k]
+        if periodic:
+            items = [Agg('tuple', (Ref(('H', 20 + k)), ds[k], shs[k])) for k in range(3)]
+        else:
+            items = [Ref(('H', 20 + k)) for k in range(3)]
+        ov = {'RTree::root': lambda i, s, a, c: Opaque('root'),
+              'RTreeWrappingNearestNeighbourIter::new': lambda i, s, a, c: list_iter(items),
+              'RTree::nearest_neighbor_iter': lambda i, s, a, c: list_iter(items)}
+        interp = engine.new_interp(funcs, overrides=ov)
+        width = rvec('pw')
+        pre = [ds[0] >= 0, ds[0] <= ds[1], ds[1] <= ds[2]] + [to_z3(w) > 0 for w in width.items]
+        st.pc.extend(pre)
+        name = engine.find_fn(funcs, fname)
+        args = [Opaque('rtree'), rvec('ploc')] + ([width, FR.dimv('ThreeD')] if periodic else [])
+        outs = interp.exec_fn(st, name, args, {})
+        run.add_functions(interp, funcs)
+        for k, (s2, v) in enumerate(outs):
+            got = list(v.items) if isinstance(v, Agg) and v.tag == 'ListIter' else None
+            H = hyps_of(s2)
+            if got is None or len(got) != 3:
+                vv, m = 'sat', None
+                run.obligations.append({'name': '%s %s path %d: all three search results are handed on' % (pid, fname.strip('^$'), k), 'expect': 'unsat', 'verdict': 'sat',
+                                        'solver': 'structural comparison', 'solver_s': 0.0, 'detail': 'result %r' % (got if got is None else len(got),)})
+            else:
+                conds = []
+                for j, t in enumerate(got):
+                    rid, rsh = t.items
+                    conds.append(to_z3(rid) == to_z3(gens[j].items[engine.field_index('src/voronoi/generator.rs', 'Generator', 'id')]))
+                    if periodic:
+                        zero = z3.And([x == 0 for x in shs[j].items])
+                        if rsh.name == 'None':
+                            conds.append(zero)
+                        else:
+                            conds.append(z3.And([z3.Not(zero)] + [to_z3(a) == -b for a, b in zip(rsh.items[0].items, shs[j].items)]))
+                    else:
+                        conds.append(z3.BoolVal(rsh.name == 'None'))
+                vv, m = run.prove('%s %s path %d: the three search results are handed on in order as (id, shift convention)' % (pid, fname.strip('^$'), k), H,
+                                  z3.Not(z3.And(conds)), timeout=20, cross=False, on_sat='caller')
+            if vv == 'sat':
+                what = '%s %s: a search result is dropped / altered before it reaches the builder (path %d)' % (pid, fname.strip('^$'), k)
+                extra = []
+                for d in (1, 2, 3):
+                    extra += OR.clustered_scenarios(d, periodic) + OR.pair_scenarios(d, periodic)
+                if not OR.confirm_family(pid, run, what, 2, periodic, None, (0, 1), extra=extra):
+                    run.suspect.append(what + ' - no public-API scenario shows a difference')
+                break
+    run.bound('neighbour pipeline: three search results with symbolic generators / distances / shifts')
+
+
 def shift_reciprocity(run, funcs, pid):
     shift_closure(run, funcs, pid)
     image_set(run, funcs, pid)
+    nn_pipeline(run, funcs, pid)
     run.bound('periodic image enumeration: symbolic positive widths; dimensionality enumerated (1D/2D/3D)')
